@@ -23,13 +23,22 @@
 (* (ProperPrefixes); the contract knows nothing of this: a request touches its own name only.     *)
 (* DelPrefix = TRUE replaces the exact-key delete by a prefix delete (used to show that the       *)
 (* refinement check sees collateral deletions).                                                   *)
+(*                                                                                              *)
+(* A mutation is successful or not by its reply, not by what it changes in the store: an update  *)
+(* that re-sends the stored spec (a client writes the same content twice: Mk(c) is the client's   *)
+(* number) is a successful mutation like any other - version + 1, a version of its own.           *)
+(* SkipSamePut = TRUE models the alternative (the put is skipped when the stored content is       *)
+(* identical, and so is the bump; the reply is 200 with the version the middleware stamped, i.e.  *)
+(* the current one) to show that the refinement check sees it.                                    *)
 EXTENDS Integers, FiniteSets, TLC
 
 CONSTANTS Clients,    \* request goroutines, numbered 1..N (0 = nobody)
           Names, Kinds,
           MaxOps,     \* requests per client (bounds the model)
           UseLock,    \* BOOLEAN
-          DelPrefix   \* BOOLEAN: FALSE = the code (_deleteObject deletes the exact key); TRUE = delete by key prefix
+          DelPrefix,  \* BOOLEAN: FALSE = the code (_deleteObject deletes the exact key); TRUE = delete by key prefix
+          SkipSamePut \* BOOLEAN: FALSE = the code (every accepted create / update writes the object and bumps the version);
+                      \*          TRUE = a put whose content equals the stored one is skipped together with its version bump
 
 None == [k |-> "none", mk |-> 0]
 NoObjs == [n \in Names |-> None]
@@ -97,10 +106,15 @@ Read(c) ==
 
 PutObj(c) ==
     /\ pc[c] = "put"
-    /\ objs' = [objs EXCEPT ![op[c].n] = [k |-> op[c].k, mk |-> op[c].mk]]
-    /\ linver' = [linver EXCEPT ![c] = AbsVer + 1]
-    /\ pc' = [pc EXCEPT ![c] = "vread"]
-    /\ UNCHANGED <<ver, holder, op, v, rep, nops>>
+    /\ IF SkipSamePut /\ objs[op[c].n] = [k |-> op[c].k, mk |-> op[c].mk]
+       THEN /\ rep' = [rep EXCEPT ![c] = Rep("ok", ver, None, NoObjs)]
+            /\ pc' = [pc EXCEPT ![c] = "unlock"]
+            /\ UNCHANGED <<objs, linver>>
+       ELSE /\ objs' = [objs EXCEPT ![op[c].n] = [k |-> op[c].k, mk |-> op[c].mk]]
+            /\ linver' = [linver EXCEPT ![c] = AbsVer + 1]
+            /\ pc' = [pc EXCEPT ![c] = "vread"]
+            /\ UNCHANGED rep
+    /\ UNCHANGED <<ver, holder, op, v, nops>>
 
 DelObj(c) ==
     /\ pc[c] = "del"
